@@ -4,8 +4,18 @@ META = {
                     "(POSIX; this is what harness/C13/rofile.h models -- trusted environment)",
                     "handles are built by the harness: 1 group, 1 KiB blocks, 16 inodes; EXT2_FLAG_RW is the only flag bit forced (to 0)"],
     "outside": [
-        "tool main()s other than e2fsck and resize2fs: debugfs without -w, dumpe2fs, tune2fs -l, e2image, e2freefrag, mke2fs -n "
-        "(e2undo -n: harness/E2UNDO); their option -> open-flag mapping is not encoded",
+        "tool main()s: e2image (source opened via ext2fs_open with 64BITS|IGNORE_CSUM_ERRORS, -I install writes by design) and "
+        "e2freefrag are not encoded (e2undo -n: harness/E2UNDO; mke2fs -n: main_mke2fs)",
+        "dumpe2fs main(): 24 concrete argv sets; list_desc() (group-descriptor printing) is cut and not encoded; the library readers it "
+        "calls (ext2fs_read_bb_inode, ext2fs_file_open2/read, ext2fs_mmp_start/read, ext2fs_read_bitmaps, list_super) are status stubs; "
+        "the second probing round of `-o superblock=N' passes block size 131072 (loop variable left past 64 KiB) -- not a write, noted only",
+        "tune2fs main(): 35 concrete argv sets (no -m/-T/-g name/-u name arguments: strtod/strptime/getgrnam not driven); for modifying "
+        "option sets only the open flag is decided (the open fails), the modifying steps themselves are not; tune2fs_setup_tdb is cut: "
+        "`tune2fs -l -z undo' creates an undo file and re-opens read-only through undo_io (undo_io manager not encoded)",
+        "debugfs: main() on 16 argv sets and the `open' command on 7 (no -f cmd_file: source_file not driven); NO debugfs command is "
+        "executed (libss stub) -- what each do_* command does on a handle without EXT2_FLAG_RW (check_fs_read_write guards) is not "
+        "encoded; debugfs_setup_tdb is cut; `debugfs -c -w' is NOT forced read-only by open_filesystem() of the pinned tree although "
+        "debugfs.8 says catastrophic mode forces read-only (config ARGS=22 left unregistered, reported)",
         "e2fsck main(): decided with every pass/helper as a protocol stub (main_e2fsck_full) -- the read-only discipline INSIDE "
         "check_super_block (release_orphan_inodes), e2fsck_check_ext3_journal, the passes, check_if_skip, show_stats, e2fsck_check_mmp "
         "(the last three are cut_statics of unix.c and have no harness), get_backup_sb (opens with io flags 0 by inspection) is not; "
@@ -26,7 +36,11 @@ META = {
         "users such as ext2fs_zero_blocks2, ext2fs_write_dir_block4, ext2fs_update_bb_inode); extent.c/link.c/unlink.c/expanddir.c/"
         "fileio.c RW tests are not encoded",
         "undo_io / test_io / inode_io / sparse_io managers; unixfd_open (derives IO_FLAG_RW from fcntl(F_GETFD) & O_RDWR)",
-        "e2fsck journal.c beyond e2fsck_journal_release (e2fsck_journal_reset_super / fix_corrupt_super are gated by fix_problem answers)",
+        "e2fsck journal.c beyond e2fsck_journal_release and the external-journal branch of e2fsck_get_journal (extjournal_ro): the "
+        "internal-journal branch of e2fsck_get_journal (backup journal inode, guarded by E2F_OPT_READONLY), e2fsck_journal_load, "
+        "e2fsck_journal_reset_super / fix_corrupt_super / fix_bad_inode (gated by fix_problem answers) and e2fsck_check_ext3_journal "
+        "(known unguarded s_errno write, documented) are not encoded; the journal device is opened IO_FLAG_RW also under -n: the "
+        "barrier there is the fix_problem answer, not the descriptor",
     ],
 }
 
@@ -223,6 +237,62 @@ HARNESSES = [
          backends=["default", "kissat"],
          bound="ctx->superblock 1..2^31-1 and the open flags symbolic; probe hit at 1024 << K for K = 0..6 or never (K = 7), one query each; "
                "result of the real open symbolic; -B given (one query)"),
+    dict(name="main_dumpe2fs", src="main_dumpe2fs.c",
+         cut_statics={"misc/dumpe2fs.c": ["list_desc"]},
+         extra_src=["lib/ext2fs/io_manager.c"],
+         funcs=["vf_real_main", "parse_extended_opts", "list_bad_blocks", "print_inline_journal_information",
+                "print_journal_information", "check_mmp", "print_mmp_block", "vf_getopt"],
+         configs=[{"ARGS": a} for a in (1, 2, 3, 4, 5, 6, 7, 8, 9, 10, 11, 12, 13, 14, 15, 16, 17, 18, 20, 21, 22, 23, 24, 25)],
+         unwind=8, unwindset=["vf_getopt.0:16", "vf_real_main.0:8", "vf_real_main.1:9", "parse_extended_opts.0:4",
+                              "vf_strtoul.0:9", "vf_strstr.0:17", "vf_strstr.1:17", "strlen.0:24", "strcpy.0:24", "strchr.0:24",
+                              "strrchr.0:24", "strcmp.0:16", "list_bad_blocks.0:2", "stub_read_blk64.0:17", "ext2fs_file_read.0:17"],
+         backends=["default", "kissat"], cap_quick=300,
+         bound="24 argv sets: {d}, -h, -b, -x, -i, -o superblock=8193, -o superblock=8193 -o blocksize=4096, -f, -g, -m, -m -i, -i -m, "
+               "-fhx, -o blocksize=4096, -o sb=32768,bs=2048 -x, e2mmpstatus, /s/e2mmpstatus -i, -osuperblock=8193 -b; refused: "
+               "-o bogus, -V, no device, -q, -o superblock=9z, two devices; which ext2fs_open calls fail (16-bit mask: every retry/probe "
+               "path), the error code, feature words, journal inode, MMP block, result of every reader stub: symbolic"),
+    dict(name="main_tune2fs", src="main_tune2fs.c",
+         cut_statics={"misc/tune2fs.c": ["tune2fs_setup_tdb"]},
+         funcs=["vf_real_main", "parse_tune2fs_options", "parse_e2label_options", "handle_fslabel", "vf_getopt"],
+         configs=[{"ARGS": a} for a in (5, 1, 2, 3, 4, 6, 7)] + [{"ARGS": a} for a in (10, 11, 12, 16, 27, 28, 31, 32)] +
+                 [{"ARGS": a, "_tier": "thorough"} for a in (13, 14, 15, 17, 18, 19, 20, 21, 22, 23, 24, 25, 26, 29, 30)] +
+                 [{"ARGS": a} for a in (40, 41, 42, 43, 44)],
+         unwind=8, unwindset=["vf_getopt.0:50", "parse_tune2fs_options.0:8", "vf_strtoul.0:9", "strlen.0:16", "strcpy.0:16",
+                              "strchr.0:16", "strrchr.0:16", "strcmp.0:16"],
+         backends=["default", "kissat"], cap_quick=300,
+         bound="35 argv sets: read-only {-l d}, {-l -f d}, {-fl d}, {-l -z u d}, {-z u -l -l d}, {e2label d}, {/sbin/e2label d}; "
+               "modifying (open fails, run ends): one per option letter -c -C -e -E -j -L -M -o -O -r -s -u -U -I -i -g -J -Q, "
+               "combined with -l before/after/clustered, e2label d new; refused: {d}, {-f d}, {-l}, {-z u d}, {-l d d}; "
+               "open result and error code, feature words, s_state, mount flags/point, undo setup result, ioctl/open results: symbolic"),
+    dict(name="main_debugfs", src="main_debugfs.c",
+         cut_statics={"debugfs/debugfs.c": ["debugfs_setup_tdb"]},
+         funcs=["vf_real_main", "open_filesystem", "close_filesystem", "vf_getopt"],
+         # ARGS=22 ({-cw d}: debugfs.8 says catastrophic mode forces read-only) is NOT registered: open_filesystem() of the pinned
+         # tree passes EXT2_FLAG_RW through with -c (counterexample: argv {g,-cw,x} -> ext2fs_open flags carry EXT2_FLAG_RW|SKIP_MMP|
+         # IGNORE_SB_ERRORS); reported to the lead as a manual/behaviour discrepancy
+         configs=[{"ARGS": a} for a in (1, 2, 3, 4, 5, 6, 7, 8, 9, 10, 11, 12, 13, 14, 20, 21)],
+         unwind=8, unwindset=["vf_getopt.0:24", "vf_real_main.0:8", "do_open_filesys.0:10", "vf_strtoul.0:9"],
+         backends=["default", "kissat"], cap_quick=300,
+         bound="16 argv sets of main(): {d}, -c, -i, -n, -D, -b 4096 -s 32768, -i -d y, -ci, -R q; nothing to open: -s 8193 (no -b), "
+               "-d y (no -i), -c (no device), -V, -q; control -w, -w -z u; which ext2fs_open calls fail and with which code, "
+               "feature words, results of bitmap load / data-source open / set_data_io / undo setup / close / libss: symbolic"),
+    dict(name="open_debugfs", src="main_debugfs.c",
+         cut_statics={"debugfs/debugfs.c": ["debugfs_setup_tdb"]},
+         funcs=["do_open_filesys", "open_filesystem", "close_filesystem", "vf_getopt"],
+         configs=[{"ARGS": a} for a in (30, 31, 32, 33, 34, 35, 36)],
+         unwind=8, unwindset=["vf_getopt.0:24", "vf_real_main.0:8", "do_open_filesys.0:10", "vf_strtoul.0:9"],
+         backends=["default", "kissat"], cap_quick=300,
+         bound="7 argv sets of the `open' command (do_open_filesys): {x}, -c, -f -i, -e -D, -i -d y -b 4096 -s 32768, two devices "
+               "(refused), control -w; same symbolic results as main_debugfs"),
+    dict(name="extjournal_ro", src="extjournal_ro.c",
+         extra_src=["lib/ext2fs/io_manager.c", "lib/ext2fs/blknum.c"],
+         funcs=["e2fsck_get_journal", "getblk", "ll_rw_block", "brelse", "mark_buffer_dirty"],
+         configs=[{"BS": 1024}, {"BS": 4096}],
+         unwind=4, unwindset=MAINL + ["uuid_is_null.0:17", "stub_jread64.0:17", "memcmp.0:17", "ll_rw_block.0:2"],
+         backends=["default", "kissat"], cap_quick=300,
+         bound="external journal (s_journal_uuid concrete, non-null), block size 1024 / 4096 per query; journal-device superblock magic, "
+               "feature words, uuid, block count, checksum and the checksum verdict, open/read failure, journal name given or looked "
+               "up (hit/miss), ctx->options, mount flags, read-only bit and the fix_problem answer word: all symbolic"),
 ]
 HARNESSES += _e2undo("C13")   # the real main() of misc/e2undo.c (sources in harness/E2UNDO)
 
@@ -236,7 +306,18 @@ MANIFEST = {
             "reports the refusal; ext2fs_close2 of a read-only DIRTY handle over that channel fails without modifying the device. "
             "Tool level: e2fsck's real main() with every pass stubbed never opens RW/EXCLUSIVE and reaches none of its writers under "
             "E2F_OPT_READONLY (all option words PRS can produce; PRS itself on 18 argv sets), and resize2fs -P opens O_RDONLY / "
-            "without RW|EXCLUSIVE and exits before any resize step (9 argv sets). Other tools' mains are outside.",
+            "without RW|EXCLUSIVE and exits before any resize step (9 argv sets). dumpe2fs's real main() (24 argv sets, every "
+            "open-retry/probe path) never passes RW/EXCLUSIVE to ext2fs_open, passes exactly the documented flag word, opens the "
+            "journal inode without EXT2_FILE_WRITE, reaches no writer and closes a clean handle (main_dumpe2fs). tune2fs's real "
+            "main() + option parsers: -l (alone, with -f, with -z) and e2label <dev> open without RW/EXCLUSIVE, reach no journal "
+            "recovery / MMP write / SETFSLABEL ioctl and close a clean handle; every parameter-changing option letter opens RW; "
+            "option-less command lines open nothing (main_tune2fs, 35 argv sets). debugfs's real main(), `open' command, "
+            "open_filesystem() and close_filesystem(): without -w no open carries RW (incl. the checksum retry), -c skips the "
+            "bitmap load and adds SKIP_MMP|IGNORE_SB_ERRORS, the -d data source is opened with io flags 0 and only with -i, the "
+            "handle is closed clean (main_debugfs, open_debugfs; no debugfs command executed). e2fsck_get_journal on an external "
+            "journal: when every fix_problem answer is no (-n) no write reaches the journal device or the filesystem for every "
+            "journal-device superblock content and checksum verdict; with yes the one write follows the checksum recomputation "
+            "(extjournal_ro). e2image/e2freefrag mains are outside.",
     "note": "Trusted: CBMC's C semantics, the counting io-manager stub, POSIX refusal of writes on O_RDONLY descriptors. "
             "ext2fs_close2 does not itself test EXT2_FLAG_RW before flushing a DIRTY handle: the barrier is the O_RDONLY descriptor "
             "(close_dirty, unix_ro, unix_open_mode, open_ro).",
